@@ -746,8 +746,12 @@ func (c *control) dirProc(colon, at bool, params []any) {
 	} else {
 		var args slip.List
 		if c.argPos < len(c.args) {
-			var ok bool
-			if args, ok = c.args[c.argPos].(slip.List); !ok {
+			switch ta := c.args[c.argPos].(type) {
+			case nil:
+				// the empty list
+			case slip.List:
+				args = ta
+			default:
 				slip.ErrorPanic(c.scope, 0, "recursive processing directive expected an argument list at %d of %q", c.pos, c.str)
 			}
 		}
